@@ -1,4 +1,5 @@
 import Zc.Proofs.Response
+import Zc.Proofs.ResponseComplete
 /-! # C11 — replies are routed and formatted as RFC 6762 §5.4, §6 and §6.7 require
 
 The decision logic of `_QueryResponse` / `async_response` / `handle_assembled_query` stated outright,
@@ -125,6 +126,92 @@ theorem C11_probe_qm (us : Bool) (seen : SeenMap) (now : Int) (nq q0 : Nat) (ans
     refine ⟨h1.mpr (Or.inr ⟨hr, hroute r⟩), ?_, ?_⟩
     · rw [h3, hroute]; simp [QR.addUcast]
     · rw [h2, hroute]; simp [QR.addUcast]
+
+/-! ## the same for the whole query: what `async_response` returns
+
+The theorems above speak of one routing step from an arbitrary accumulated state.  Routing never removes anything
+(`route_mono`), so each of them lifts to the `QuestionAnswers` returned for a query of any number of packets and questions
+(`asyncResponse_lift`): the statements below are about **every** unsuppressed candidate answer (`r ∈ answerSet …`) of
+**every** question strategy `it` of **every** packet `p` of the query. -/
+
+/-- legacy source port: every such answer is in the unicast reply and in one of the three multicast sets -/
+theorem C11_query_legacy (port : Nat) (hport : port ≠ 5353) {pkts : List Pkt} {seen : SeenMap} {qa : QA}
+    (h : asyncResponse pkts (Gen.Reply.ucast_source port) seen = some qa)
+    {p : Pkt} (hp : p ∈ pkts) {it : QItem} (hit : it ∈ p.items) (r : RecId) (hr : r ∈ (answerSet (unionKnown pkts) it).keys) :
+    r ∈ qa.ucast.keys ∧ (r ∈ qa.mcastNow.keys ∨ r ∈ qa.mcastAgg.keys ∨ r ∈ qa.mcastLast.keys) := by
+  obtain ⟨first, last, hf, hl, _⟩ := asyncResponse_eq h
+  have hus : Gen.Reply.ucast_source (port : Int) = true := (GenFacts.ucast_source _).mpr (by omega)
+  have step : ∀ (inN inA inL : Bool),
+      (mcRoute (pkts.any (·.isProbe)) (inLastSecond (seen.get r) last.now) first.nq first.q0type = .now → inN = true → True) →
+      (inN = true → mcRoute (pkts.any (·.isProbe)) (inLastSecond (seen.get r) last.now) first.nq first.q0type = .now) →
+      (inA = true → mcRoute (pkts.any (·.isProbe)) (inLastSecond (seen.get r) last.now) first.nq first.q0type = .aggregate) →
+      (inL = true → mcRoute (pkts.any (·.isProbe)) (inLastSecond (seen.get r) last.now) first.nq first.q0type = .lastSecond) →
+      (true = true → r ∈ qa.ucast.keys) ∧ (inN = true → r ∈ qa.mcastNow.keys) ∧ (inA = true → r ∈ qa.mcastAgg.keys) ∧
+        (inL = true → r ∈ qa.mcastLast.keys) := by
+    intro inN inA inL _ hN hA hL
+    apply asyncResponse_lift h hp hit r true inN inA inL
+    intro f l qr hf' hl'
+    rw [hf] at hf'; rw [hl] at hl'; cases hf'; cases hl'
+    simp only [QR.route, hus, GenFacts.route_qu_only, Bool.not_true, Bool.false_and, Bool.false_eq_true, if_false, if_true]
+    obtain ⟨u1, _, _, _⟩ := addUcast_sets (answerSet (unionKnown pkts) it) qr r
+    obtain ⟨h1, h2, h3, h4⟩ := addMcast_sets (pkts.any (·.isProbe)) seen last.now first.nq first.q0type
+      (answerSet (unionKnown pkts) it) (qr.addUcast (answerSet (unionKnown pkts) it)) r
+    exact ⟨fun _ => by rw [h4]; exact u1.mpr (Or.inr hr), fun hh => h1.mpr (Or.inr ⟨hr, hN hh⟩),
+           fun hh => h3.mpr (Or.inr ⟨hr, hA hh⟩), fun hh => h2.mpr (Or.inr ⟨hr, hL hh⟩)⟩
+  cases hroute : mcRoute (pkts.any (·.isProbe)) (inLastSecond (seen.get r) last.now) first.nq first.q0type
+  · obtain ⟨a, b, _, _⟩ := step true false false (fun _ _ => trivial) (fun _ => hroute) ((fun hh => nomatch hh)) ((fun hh => nomatch hh))
+    exact ⟨a rfl, Or.inl (b rfl)⟩
+  · obtain ⟨a, _, _, d⟩ := step false false true (fun _ _ => trivial) ((fun hh => nomatch hh)) ((fun hh => nomatch hh)) (fun _ => hroute)
+    exact ⟨a rfl, Or.inr (Or.inr (d rfl))⟩
+  · obtain ⟨a, _, c, _⟩ := step false true false (fun _ _ => trivial) ((fun hh => nomatch hh)) (fun _ => hroute) ((fun hh => nomatch hh))
+    exact ⟨a rfl, Or.inr (Or.inl (c rfl))⟩
+
+/-- QU question from port 5353 (any query, probe or not): seen within a quarter of the TTL at the arrival of the last packet
+⇒ in the unicast reply; not seen ⇒ multicast at once; a probe's answer is unicast in either case -/
+theorem C11_query_qu {pkts : List Pkt} {seen : SeenMap} {qa : QA}
+    (h : asyncResponse pkts (Gen.Reply.ucast_source 5353) seen = some qa)
+    {p : Pkt} (hp : p ∈ pkts) {it : QItem} (hit : it ∈ p.items) (hqu : it.qu = true)
+    (r : RecId) (hr : r ∈ (answerSet (unionKnown pkts) it).keys) {last : Pkt} (hl : pkts.getLast? = some last) :
+    (withinQuarter (seen.get r) last.now = true → r ∈ qa.ucast.keys) ∧
+    (withinQuarter (seen.get r) last.now = false → r ∈ qa.mcastNow.keys) ∧
+    (pkts.any (·.isProbe) = true → r ∈ qa.ucast.keys) := by
+  have hus : Gen.Reply.ucast_source (5353 : Int) = false := by
+    have := (not_congr (GenFacts.ucast_source 5353)).mpr (by simp); simpa using this
+  have step : ∀ (inU inN : Bool),
+      (inU = true → pkts.any (·.isProbe) = true ∨ withinQuarter (seen.get r) last.now = true) →
+      (inN = true → withinQuarter (seen.get r) last.now = false) →
+      (inU = true → r ∈ qa.ucast.keys) ∧ (inN = true → r ∈ qa.mcastNow.keys) := by
+    intro inU inN hU hN
+    obtain ⟨a, b, _, _⟩ := asyncResponse_lift h hp hit r inU inN false false (by
+      intro f l qr _ hl'
+      rw [hl] at hl'; cases hl'
+      simp only [QR.route, hus, hqu, GenFacts.route_qu_only, Bool.not_false, Bool.true_and, if_true]
+      obtain ⟨h1, h2, _, _⟩ := addQu_sets (pkts.any (·.isProbe)) seen last.now (answerSet (unionKnown pkts) it) qr r
+      exact ⟨fun hh => h1.mpr (Or.inr ⟨hr, hU hh⟩), fun hh => h2.mpr (Or.inr ⟨hr, hN hh⟩), (fun hh => nomatch hh), (fun hh => nomatch hh)⟩)
+    exact ⟨a, b⟩
+  refine ⟨fun hw => ?_, fun hw => ?_, fun hpr => ?_⟩
+  · exact (step true false (fun _ => Or.inr hw) ((fun hh => nomatch hh))).1 rfl
+  · exact (step false true ((fun hh => nomatch hh)) (fun _ => hw)).2 rfl
+  · exact (step true false (fun _ => Or.inl hpr) ((fun hh => nomatch hh))).1 rfl
+
+/-- a probe (some packet of the query carries an authority section): every answer of a question that is not routed as
+"QU from port 5353" — a QM question, or any question from a legacy port — is multicast at once -/
+theorem C11_query_probe_mcast (us : Bool) {pkts : List Pkt} {seen : SeenMap} {qa : QA}
+    (h : asyncResponse pkts us seen = some qa) (hprobe : pkts.any (·.isProbe) = true)
+    {p : Pkt} (hp : p ∈ pkts) {it : QItem} (hit : it ∈ p.items) (hroute : (!us && it.qu) = false)
+    (r : RecId) (hr : r ∈ (answerSet (unionKnown pkts) it).keys) : r ∈ qa.mcastNow.keys := by
+  obtain ⟨_, b, _, _⟩ := asyncResponse_lift h hp hit r false true false false (by
+    intro f l qr _ _
+    have hnow : ∀ k, mcRoute (pkts.any (·.isProbe)) (inLastSecond (seen.get k) l.now) f.nq f.q0type = .now :=
+      fun k => (mcRoute_now _ _ _ _).mpr (Or.inl hprobe)
+    simp only [QR.route, GenFacts.route_qu_only, hroute, Bool.false_eq_true, if_false]
+    refine ⟨(fun hh => nomatch hh), fun _ => ?_, (fun hh => nomatch hh), (fun hh => nomatch hh)⟩
+    cases us
+    · simp only [Bool.false_eq_true, if_false]
+      exact (addMcast_sets _ seen l.now f.nq f.q0type _ qr r).1.mpr (Or.inr ⟨hr, hnow r⟩)
+    · simp only [if_true]
+      exact (addMcast_sets _ seen l.now f.nq f.q0type _ _ r).1.mpr (Or.inr ⟨hr, hnow r⟩))
+  exact b rfl
 
 /-! ## C11_mcast_fmt — what every multicast reply looks like; no flush bit in unicast replies -/
 
